@@ -137,8 +137,15 @@ pub struct Oracle {
     /// the cursor is wrap-pending at the right edge (left there by a draw whose last painted line was
     /// a text line: nothing to erase) - the line only resolves the pending wrap.  `vt_swallow` gets
     /// the row the property demands (one more write_line("")); `vt_both` gets this and the D14 repairs.
+    /// 'bottom-empty-frame-at-full-height-scrolls' (finding candidate D26, C19): under bottom
+    /// alignment an EMPTY frame painted while last_line_count = H pads H rows with write_line: the
+    /// last one scrolls the terminal, one blank row goes into the scroll-back (every time).  Seen as:
+    /// a draw that clears H rows and then writes exactly H empty lines and nothing else.  A failure
+    /// gets this class iff the same check passes when BLANK rows are disregarded on both sides.
+    bottom_full_height_empty: bool,
     vt_swallow: Vt,
     swallow_injected: bool,
+    both_swallow_injected: bool,
     vt_both: Vt,
     last_injected: &'static str,
     /// D22 ('bottom-alignment-kept-rows-misplaced', property C04 only): under bottom alignment with
@@ -157,6 +164,8 @@ pub struct Oracle {
     /// static rows in physical order: the printed log rows and the rows of finished bars that had
     /// scrolled out of the visible screen when a println/clear/suspend went to erase them
     transcript: Vec<String>,
+    /// which transcript rows are rows of finished, dropped bars (frozen when they went out of reach)
+    transcript_kept: Vec<bool>,
     /// rows scrolled off the top of the terminal so far (derived from the expected extents)
     top: usize,
     pub frozen_rows: usize,
@@ -207,8 +216,10 @@ impl Oracle {
             cut_injected: false,
             below_real: false,
             below_fixed: false,
+            bottom_full_height_empty: false,
             vt_swallow: Vt::new(case.w, case.h),
             swallow_injected: false,
+            both_swallow_injected: false,
             vt_both: Vt::new(case.w, case.h),
             last_injected: "",
             d22_padded: false,
@@ -217,6 +228,7 @@ impl Oracle {
             oversized_reap: false,
             last_lines: vec![vec![]; nb],
             transcript: vec![],
+            transcript_kept: vec![],
             top: 0,
             frozen_rows: 0,
             pending_drop: None,
@@ -235,6 +247,29 @@ impl Oracle {
             }
         }
         o
+    }
+
+    /// the same observation and expectation with every BLANK row removed
+    fn drop_blank_rows(&mut self) {
+        self.vt.rows.retain(|r| r.iter().any(|c| *c != ' '));
+        self.vt.r = self.vt.rows.len();
+        self.vt.c = 0;
+        self.log.retain(|l| !l.trim_end().is_empty());
+        {
+            let keep: Vec<bool> = self.transcript.iter().map(|l| !l.is_empty()).collect();
+            let mut it = keep.iter();
+            self.transcript.retain(|_| *it.next().unwrap());
+            let mut it = keep.iter();
+            self.transcript_kept.retain(|_| *it.next().unwrap());
+        }
+        for it in self.display.iter_mut() {
+            for c in it.cands.iter_mut() {
+                c.retain(|r| !r.is_empty());
+            }
+        }
+        for ls in self.last_lines.iter_mut() {
+            ls.retain(|l| !l.trim_end().is_empty());
+        }
     }
 
     fn cur_getters(&self, b: usize) -> Getters {
@@ -327,6 +362,7 @@ impl Oracle {
         let out = self.top.saturating_sub(self.transcript.len()).min(kept_rows.len());
         self.frozen_rows += out;
         self.transcript.extend(kept_rows[..out].iter().cloned());
+        self.transcript_kept.extend(std::iter::repeat(true).take(out));
         self.display.retain(|i| i.state != ItemState::Kept);
         let p2 = ORACLE_P2;
         let (w, h) = (self.w, self.h);
@@ -352,7 +388,11 @@ impl Oracle {
     }
 
     fn push_log(&mut self, lines: Vec<String>) {
-        self.transcript.extend(rows_of(&lines, self.w));
+        {
+            let rs = rows_of(&lines, self.w);
+            self.transcript_kept.extend(std::iter::repeat(false).take(rs.len()));
+            self.transcript.extend(rs);
+        }
         self.log.extend(lines);
     }
 
@@ -869,6 +909,16 @@ impl Oracle {
             }
             _ => None,
         };
+        if self.bottom_ever {
+            for seg in o.emitted.split(|x| *x == TOp::Flush) {
+                let clears = seg.iter().filter(|x| **x == TOp::Clear).count();
+                let empties = seg.iter().filter(|x| matches!(x, TOp::Line(l) if l.is_empty())).count();
+                let writes = seg.iter().filter(|x| matches!(x, TOp::Str(_) | TOp::Line(_))).count();
+                if clears == self.h && empties == self.h && writes == empties {
+                    self.bottom_full_height_empty = true;
+                }
+            }
+        }
         let tall: usize = self
             .display
             .iter()
@@ -936,6 +986,7 @@ impl Oracle {
             }
             if feed_with(&mut self.vt_both, &ups, empty_first_closure_line) {
                 self.last_injected = "empty-line-after-text-only-draw-swallowed";
+                self.both_swallow_injected = true;
             }
             let _ = feed_with(&mut self.vt_fixed, &ups, None);
             if !ups.is_empty() {
@@ -1003,7 +1054,11 @@ impl Oracle {
         }
         let after_clear = matches!(op, Op::MClear);
         let d22_possible = self.kept_rows_checked && self.bottom_ever && self.d22_padded;
-        let snapshot = if self.cut_injected || self.swallow_injected || d22_possible { Some(self.clone()) } else { None };
+        let snapshot = if self.cut_injected || self.swallow_injected || self.both_swallow_injected || d22_possible || self.bottom_full_height_empty {
+            Some(self.clone())
+        } else {
+            None
+        };
         let mut res = self.check_screen(op, after_clear);
         if let (Some(v), Some(snap)) = (res.as_mut(), snapshot) {
             // is THIS mismatch explained by a known defect?
@@ -1022,12 +1077,19 @@ impl Oracle {
                     explained = Some("empty-line-after-text-only-draw-swallowed"); // open finding (C01, C03)
                 }
             }
-            if explained.is_none() && snap.swallow_injected && snap.cut_injected {
+            if explained.is_none() && snap.both_swallow_injected && snap.cut_injected {
                 // both known deviations occurred: the one injected last names the failure
                 let mut alt = snap.clone();
                 alt.vt = alt.vt_both.clone();
                 if alt.check_screen(op, after_clear).is_none() {
                     explained = Some(snap.last_injected);
+                }
+            }
+            if explained.is_none() && snap.bottom_full_height_empty {
+                let mut alt = snap.clone();
+                alt.drop_blank_rows();
+                if alt.check_screen(op, after_clear).is_none() {
+                    explained = Some("bottom-empty-frame-at-full-height-scrolls"); // finding candidate D26
                 }
             }
             if explained.is_none() && d22_possible {
@@ -1103,7 +1165,7 @@ impl Oracle {
             trimmed_log.pop();
         }
         let prefix_ok = got.len() >= trimmed_log.len() && (0..trimmed_log.len()).all(|i| row_eq(&got[i], &log_rows[i]));
-        if !prefix_ok && self.bottom_ever {
+        if !prefix_ok && (self.bottom_ever || !self.kept_rows_checked) {
             // bottom alignment: a suspend (fix 96a75c4) leaves the blank padding rows of the cleared
             // region above what the closure prints: BLANK rows may sit between the static rows -
             // nothing else may (a duplicated or displaced line is a failure)
@@ -1111,13 +1173,19 @@ impl Oracle {
             let mut ok = true;
             while j < trimmed_log.len() {
                 if i >= got.len() {
+                    if !self.kept_rows_checked && self.transcript_kept.get(j).copied().unwrap_or(false) {
+                        j += 1;
+                        continue;
+                    }
                     ok = false;
                     break;
                 }
                 if row_eq(&got[i], &log_rows[j]) {
                     i += 1;
                     j += 1;
-                } else if got[i].is_empty() {
+                } else if !self.kept_rows_checked && self.transcript_kept.get(j).copied().unwrap_or(false) {
+                    j += 1; // a row of a finished, dropped bar: may be missing when kept rows are not checked
+                } else if self.bottom_ever && got[i].is_empty() {
                     i += 1;
                 } else {
                     ok = false;
@@ -1212,7 +1280,14 @@ impl Oracle {
             while w2.last().map_or(false, |r| r.is_empty()) {
                 w2.pop();
             }
+            let bottom = self.bottom_ever;
             let same = |g: &[String], w: &[String]| {
+                if bottom {
+                    // bottom alignment pads the region with blank rows: compare the non-blank rows
+                    let a: Vec<&String> = g.iter().filter(|r| !r.is_empty()).collect();
+                    let b: Vec<&String> = w.iter().filter(|r| !r.is_empty()).collect();
+                    return a.len() == b.len() && a.iter().zip(b.iter()).all(|(x, y)| row_eq(x, y));
+                }
                 let mut w2 = w.to_vec();
                 while w2.last().map_or(false, |r| r.is_empty()) {
                     w2.pop();
@@ -1496,3 +1571,140 @@ pub fn run_sys_cases_mode(
     }
     s.count_n("oracle_screen_checks", checks);
 }
+
+/// ORACLE-ONLY stream (the drawing models are single-column): texts made of DOUBLE-WIDTH characters
+/// only, on EVEN terminal widths (no character straddles the right edge: that case, D20, stays out of
+/// scope), a single bar; the recorded TermLike calls are replayed on the vt100 crate, which knows
+/// wide characters.  After every painted draw the visible screen must be  log rows ++ frame rows
+/// with a line of k wide characters occupying ceil(2k/W) rows (so erasing after a shrink /
+/// finish_and_clear is exact), and the cursor must be at the right edge of the last frame row.
+/// Class 'wide-text-rows-miscounted'.
+pub fn wide_text_stream(s: &mut crate::Session, r: &mut crate::Rng, n: usize) {
+    const WIDE: [char; 6] = ['進', '捗', '状', '況', '確', '認'];
+    fn cw(c: char) -> usize {
+        if (c as u32) >= 0x1100 {
+            2
+        } else {
+            1
+        }
+    }
+    fn wrows(line: &str, w: usize) -> Vec<String> {
+        let mut out = vec![String::new()];
+        let mut col = 0;
+        for c in line.chars() {
+            if col + cw(c) > w {
+                out.push(String::new());
+                col = 0;
+            }
+            out.last_mut().unwrap().push(c);
+            col += cw(c);
+        }
+        out.iter().map(|x| x.trim_end().to_string()).collect()
+    }
+    for i in 0..n {
+        let w = *r.pick(&[4u16, 6, 8, 10, 20]);
+        let h = 40u16;
+        let wu = w as usize;
+        let two = r.chance(1, 2);
+        let tmpl = if two { vec![TPart::Msg, TPart::NewLine, TPart::Pos] } else { vec![TPart::Msg] };
+        let wide = |r: &mut crate::Rng, k: usize| -> String { (0..k).map(|_| *r.pick(&WIDE)).collect() };
+        let mut ops: Vec<Op> = vec![];
+        let nops = r.range(3, 8);
+        for _ in 0..nops {
+            let k = match r.below(6) {
+                0 => wu / 2,
+                1 => wu / 2 + 1,
+                2 => wu,
+                3 => wu + 1,
+                _ => r.below(wu as u64 + 3) as usize,
+            };
+            ops.push(match r.below(8) {
+                0..=3 => Op::SetMsg(0, wide(r, k)),
+                4 => Op::Println(0, if r.chance(1, 2) { wide(r, k) } else { "log".into() }),
+                5 => Op::Tick(0),
+                6 => Op::Inc(0, 1),
+                _ => Op::ForceDraw(0),
+            });
+        }
+        ops.push(if r.chance(1, 2) { Op::Finish(0, Fin::AndClear) } else { Op::Finish(0, Fin::AndLeave) });
+        let case = Case {
+            w,
+            h,
+            fail_at: vec![],
+            fail_from: None,
+            mp: TInit::Hidden,
+            bars: vec![BarInit { len: Some(9), fin: Fin::AndLeave, tmpl, target: TInit::Term(None) }],
+            ops: ops.into_iter().enumerate().map(|(j, o)| ((j as u64 + 1) * 1_000_000_000, o)).collect(),
+        };
+        let obs = run_case(&case);
+        let desc = format!("WIDE {}", describe(&case));
+        let mut vt = Vt100::new(w, h);
+        let mut log: Vec<String> = vec![];
+        let mut hidden = false;
+        let mut bad: Option<String> = None;
+        for ((_, op), o) in case.ops.iter().zip(obs.iter()) {
+            if let Some(p) = &o.panic {
+                bad = Some(format!("panic: {p}"));
+                break;
+            }
+            match op {
+                Op::Println(_, m) => {
+                    if m.lines().next().is_none() {
+                        log.push(String::new()) // println("") prints one empty line
+                    } else {
+                        log.extend(m.lines().map(|x| x.to_string()))
+                    }
+                }
+                Op::Finish(_, f) => hidden = matches!(f, Fin::AndClear),
+                _ => {}
+            }
+            let fed = {
+                let v = &mut vt;
+                crate::catch(|| v.feed(&o.emitted)).is_ok()
+            };
+            if !fed {
+                break;
+            }
+            if !o.emitted.iter().any(|x| *x == TOp::Flush) {
+                continue;
+            }
+            let g = match &o.getters[0] {
+                Some(g) => g.clone(),
+                None => break,
+            };
+            let mut want: Vec<String> = log.iter().flat_map(|l| wrows(l, wu)).collect();
+            let mut frame_rows = 0;
+            if !hidden {
+                let fr: Vec<String> = render_expected(&case.bars[0].tmpl, &g)
+                    .iter()
+                    .flat_map(|l| wrows(l, wu))
+                    .collect();
+                frame_rows = fr.len();
+                want.extend(fr);
+            }
+            while want.last().map_or(false, |x| x.is_empty()) {
+                want.pop();
+            }
+            let mut got = vt.visible_rows();
+            while got.last().map_or(false, |x| x.is_empty()) {
+                got.pop();
+            }
+            s.count("wide_text_screen_checks");
+            let (_, col) = vt.cursor();
+            if got != want {
+                bad = Some(format!("after {:?}: the screen shows {:?} but log ++ frame is {:?}", op, got, want));
+                break;
+            }
+            if frame_rows > 0 && col != wu {
+                bad = Some(format!("after {:?}: the cursor is at column {col}, not at the right edge of the last frame row (screen {:?})", op, got));
+                break;
+            }
+        }
+        if let Some(d) = bad {
+            s.fail("wide-text-rows-miscounted", d, desc.clone());
+        }
+        let _ = i;
+        s.oracle_only(desc, true);
+    }
+}
+
